@@ -95,6 +95,22 @@ func BuildOverlay() (*Overlay, error) {
 		ov.Files[filepath.Join(RepoDir, rd, "zz_verif_replay_test.go")] = []byte(strings.ReplaceAll(string(rep), "PKGNAME", pkgName))
 		ov.PkgDirs = append(ov.PkgDirs, rd)
 	}
+	// generated PDU harnesses (from the layout tables)
+	for d, files := range GenerateHarnesses() {
+		pkgName := ""
+		for name, b := range files {
+			ov.Files[filepath.Join(RepoDir, d, "zz_verif_"+name)] = b
+			if m := pkgRe.FindSubmatch(b); m != nil {
+				pkgName = string(m[1])
+			}
+		}
+		if !seen[d] {
+			seen[d] = true
+			ov.Files[filepath.Join(RepoDir, d, "zz_verif_support.go")] = []byte(strings.ReplaceAll(string(sup), "PKGNAME", pkgName))
+			ov.Files[filepath.Join(RepoDir, d, "zz_verif_replay_test.go")] = []byte(strings.ReplaceAll(string(rep), "PKGNAME", pkgName))
+			ov.PkgDirs = append(ov.PkgDirs, d)
+		}
+	}
 	return ov, nil
 }
 
